@@ -24,7 +24,7 @@ LABELS = {"l1": ["alice@example.org", "bob"], "l2": ["a b/c%d&e=f+g#h?i \xe9€@
 ISSUERS = {"i1": ["Example Corp", "acme"], "i2": ["is\xdf/ue%r&x=y+z", "a&b=c d"]}
 OTHER_KEY = "JBSWY3DPEHPK3PXPJBSWY3DPEHPK3PXP"
 TIMES = [59, 1111111109, 20000000000]
-CORR = ["none", "no-type", "bad-type", "no-version", "future-version", "no-key", "bad-scheme", "no-label", "issuer-conflict",
+CORR = ["none", "no-type", "bad-type", "fragment-type", "no-version", "future-version", "no-key", "bad-scheme", "no-label", "issuer-conflict",
         "dup-secret", "dup-issuer", "dup-digits", "dup-period", "dup-algorithm"]
 DUP = {"dup-secret": "secret", "dup-issuer": "issuer", "dup-digits": "digits", "dup-period": "period", "dup-algorithm": "algorithm"}
 
@@ -40,6 +40,8 @@ def corrupt_uri(uri, cor, obj):
         return uri.replace("otpauth://", "http://", 1)
     if cor == "bad-type":
         return uri.replace("otpauth://totp/", "otpauth://xotp/", 1)
+    if cor == "fragment-type":
+        return uri.replace("otpauth://totp/", "otpauth://" + random.choice(["otp", "tot", "t", "to", "tp", ""]) + "/", 1)
     head, q = uri.split("?", 1)
     if cor == "no-label":
         return "otpauth://totp/?" + q
@@ -64,6 +66,8 @@ def corrupt_dict(d, cor):
         d.pop("type")
     elif cor == "bad-type":
         d["type"] = "xotp"
+    elif cor == "fragment-type":
+        d["type"] = random.choice(["otp", "tot", "t", "", "to"])
     elif cor == "no-version":
         d.pop("v")
     elif cor == "future-version":
@@ -152,8 +156,18 @@ def run(chk):
                     src = obj.to_json()
             detail["source"] = src
             try:
+                snapshot = dict(src) if isinstance(src, dict) else None
                 back = cls.from_source(src)
                 got = ["ok", fields(back)]
+                if snapshot is not None:
+                    # loading must not consume the caller's record: it is unchanged and loads again to the same object
+                    if src != snapshot:
+                        chk.violation("dict:source-modified", f"from_source() changed the dict it was given: {sorted(set(snapshot) ^ set(src))} differ", detail)
+                        continue
+                    again = cls.from_source(src)
+                    if fields(again) != got[1]:
+                        chk.violation("dict:second-load-differs", "loading the same dict a second time gives another object", detail)
+                        continue
             except ValueError as ex:
                 got = ["ValueError", str(ex)[:80]]
         except Exception as ex:
